@@ -304,7 +304,7 @@ def write_evidence(prop_id, tier, seed, level, coverage, assumptions, wall, viol
 
 
 def write_replay(prop_id, violation, tier, seed):
-  d = os.path.join(ROOT, 'replays', prop_id)
+  d = os.path.join(os.environ.get('VERIF_REPLAY_DIR') or os.path.join(ROOT, 'replays'), prop_id)
   os.makedirs(d, exist_ok=True)
   payload = dict(property=prop_id, tier=tier, seed=seed, site=violation['site'], sig=violation['sig'],
                  key=violation['key'], unit=violation['unit'], detail=violation['detail'])
